@@ -263,9 +263,10 @@ fn verif_c18_enumeration() {
     }
     // ---- level 3: value domains (each value alone, and every pair of values of two different keys)
     let domains: Vec<(&'static str, Vec<&'static str>)> = vec![
-        ("response_derives", vec!["Debug", "Debug, Clone", "PartialEq,Eq", "Serialize"]),
+        ("response_derives", vec!["Debug", "Debug, Clone", "PartialEq,Eq", "Serialize", "skip_serializing_none, normalization"]),
         ("variables_derives", vec!["Debug", "Clone,Debug", "Default"]),
-        ("custom_scalars_module", vec!["crate::scalars", "scalars", "super::scalars"]),
+        // (values that contain the words of flags and of other keys: a value is data, never an option)
+        ("custom_scalars_module", vec!["crate::scalars", "scalars", "super::scalars", "crate::skip_serializing_none", "fragments_other_variant::deprecated"]),
         // values with a backslash: in a raw literal it is an ordinary character, never an escape
         ("fragments_other_variant", vec!["true", "false", "TRUE", "yes", "", "tru\\x65"]),
         ("deprecated", vec!["allow", "warn", "deny", "DeNy", "ALLOW", "bogus", "", "den\\x79", "al\\u{6c}ow"]),
@@ -279,7 +280,8 @@ fn verif_c18_enumeration() {
             }
         }
     }
-    for vs in [vec![], vec!["Role".to_string()], vec!["Role".to_string(), "Missing".to_string()], vec!["role".to_string()]] {
+    for vs in [vec![], vec!["Role".to_string()], vec!["Role".to_string(), "Missing".to_string()], vec!["role".to_string()],
+               vec!["skip_serializing_none".to_string(), "fragments_other_variant".to_string()]] {
         singles.push(Item::List("extern_enums", vs));
     }
     singles.push(Item::Flag("skip_serializing_none"));
@@ -309,7 +311,7 @@ fn verif_c18_enumeration() {
     for before in befores {
         for after in afters {
             for vis in ["", "pub", "pub(crate)", "pub(super)"] {
-                for dir in ["", "sub/", "sub/../", "sub/deeper/../../", "../c18fix/", "../../rs/c18fix/", "./", "sub/./"] {
+                for dir in ["", "sub/", "sub/../", "sub/deeper/../../", "../c18fix/", "../../rs/c18fix/", "./", "sub/./", "skip_serializing_none/"] {
                     run_case(&mut ctx, "surroundings", &opt_default, &full, ", ", true, before, after, vis, dir);
                     run_case(&mut ctx, "surroundings", &[], &[1, 0], ",", false, before, after, vis, dir);
                     run_case(&mut ctx, "surroundings", &[opt_default[7].clone(), opt_default[5].clone()], &[3, 0, 2, 1], " , ", false, before, after, vis, dir);
